@@ -160,6 +160,20 @@ def stepCksum (st : St) (ws : List String) : St × String :=
         else (st, "bad-op")
       | none => (st, "bad-op")
     | _, _, _, _, _ => (st, "bad-op")
+  | ["cksum", "emit", "ip4p", "-", s, d, tos, id, ff, ttl, pr, nnop, okind, odata, pad, pl] =>
+    -- IPv4 with a Padding field: `copy(bytes[curLocation:], ip.Padding)` overlays the alignment area behind the options
+    match bytesOfHex s, bytesOfHex d, [tos, id, ff, ttl, pr, nnop, okind].mapM nat?, bytesOfHex odata, bytesOfHex pad, bytesSpec pl with
+    | some s, some d, some [tos, id, ff, ttl, pr, nnop, okind], some odata, some pad, some pl =>
+      match optsOf nnop okind odata with
+      | some o =>
+        -- getIPv4OptionSize counts len(Padding) too: options, then the padding bytes, then zeros up to a multiple of 4
+        let raw := nnop + (if okind = 0 then 0 else 2 + odata.length)
+        let o' := o.take raw ++ pad ++ zeros ((4 - (raw + pad.length) % 4) % 4)
+        if s.length = 4 ∧ d.length = 4 ∧ tos < 256 ∧ id < 65536 ∧ ff < 65536 ∧ ttl < 256 ∧ pr < 256 ∧ pad.length ≤ 8 ∧ o'.length ≤ 40 then
+          emitReply st "ip4" none (some 10) (emitIp4 { tos := tos, id := id, ff := ff, ttl := ttl, proto := pr, src := s, dst := d, opts := o' } pl)
+        else (st, "bad-op")
+      | none => (st, "bad-op")
+    | _, _, _, _, _, _ => (st, "bad-op")
   | ["cksum", "emit", "tcp", v, s, d, sp, dp, sq, ak, fl, win, urg, nnop, okind, odata, pl] =>
     match parseNet v s d, [sp, dp, sq, ak, fl, win, urg, nnop, okind].mapM nat?, bytesOfHex odata, bytesSpec pl with
     | some (some net), some [sp, dp, sq, ak, fl, win, urg, nnop, okind], some odata, some pl =>
